@@ -93,13 +93,24 @@ Theorem C03_convert_keeps_witness : forall (d w : snode) (nm : N),
 Proof. exact convert_keeps_witness. Qed.
 Print Assumptions C03_convert_keeps_witness.
 
-(* ---- the clause "still parses" is REFUTED by the use expansion (known class use-expansion-loop):
-   two groups that `use` each other (and three, as in corpus/witness/F01-use.txt) are not caught by the
-   guards of parse_svg_use_element; the expansion only stops at the depth limit and the whole document,
-   including the independent shape, is lost. ---- *)
+(* ---- "still parses": the use expansion is finite for EVERY reference graph.  Since fix 1c16806 every `use`
+   that is being resolved has its ancestors and its target on an in-progress list and a target on that list is
+   not expanded, so each nested expansion consumes a fresh element of the document: with limits that depend on
+   the size of the document only, the construction is never stopped by the depth limit (and never runs out of
+   fuel), whatever the node limit is.  Together with C03_witness_preserved: a document is rejected only for
+   its genuine size / depth, never for a reference loop. ---- *)
+Theorem C03_use_expansion_finite : forall (x : xnode) (nl : Z),
+  match snd (build_with (max_step * Z.of_nat (expansion_fuel x)) nl (expansion_fuel x) x) with
+  | OErr EDepth | OOut => False
+  | _ => True
+  end.
+Proof. exact build_expansion_finite. Qed.
+Print Assumptions C03_use_expansion_finite.
+
 Local Open Scope N_scope.
 Definition wit : xnode := XN 90 TShape (Some 99) false [(AFill, None)] [].
 Definition svg (ks : list xnode) : xnode := XN 0 TSvg None false [] ks.
+(* the former witnesses of the class use-expansion-loop (corpus/c03, corpus/witness/F01-use.txt) *)
 Definition use2_doc : xnode := svg [
   XN 1 TG (Some 1) false [] [XN 2 TUse None false [(AHref, Some 2)] []];
   XN 3 TG (Some 2) false [] [XN 4 TUse None false [(AHref, Some 1)] []];
@@ -110,39 +121,16 @@ Definition use3_doc : xnode := svg [
   XN 5 TG (Some 3) false [] [XN 6 TUse None false [(AHref, Some 1)] []];
   wit].
 
-Lemma wit_plain ks1 : xplain_at wit (svg (ks1 ++ [wit])).
-Proof.
-  apply xplain_here; try (left; reflexivity); try constructor; try reflexivity.
-  - apply in_or_app. right. left. reflexivity.
-  - constructor.
-Qed.
-
-Theorem C03_still_parses_refuted :
-  exists x w nm, xplain_at w x /\ xname w = Some nm /\ use_loop x = true /\ parse x = PErr.
-Proof.
-  exists use2_doc, wit, 99. split; [exact (wit_plain [_; _])|]. split; [reflexivity|]. split; vm_compute; reflexivity.
-Qed.
-Print Assumptions C03_still_parses_refuted.
-
-Theorem C03_use_three_cycle_refuted : use_loop use3_doc = true /\ parse use3_doc = PErr.
-Proof. split; vm_compute; reflexivity. Qed.
-Print Assumptions C03_use_three_cycle_refuted.
-
-(* ---- outside the class the use expansion has finite depth (no limit on the depth is ever the reason
-   to reject the document when the limit is at least max_step * loop_fuel), and whenever a document is
-   not rejected its independent shape is kept (C03_witness_preserved) ---- *)
-Theorem C03_outside_class_expansion_finite : forall (x : xnode) (nl : Z), use_loop x = false ->
-  match snd (build_with (max_step * Z.of_nat (loop_fuel x)) nl (loop_fuel x) x) with
-  | OErr EDepth | OOut => False
-  | _ => True
-  end.
-Proof. exact no_use_loop_finite. Qed.
-Print Assumptions C03_outside_class_expansion_finite.
-
 (* ---- non-vacuity: the fixed witnesses F1 (mask / clipPath / pattern 3-cycles, mixed), F2 (href), the
    shapes the use guards do catch, an acyclic chain ---- *)
 Definition shape (u : nat) : xnode := XN u TShape None false [] [].
 Definition names (r : presult) : option (list N) := match r with POk out _ => Some (item_names out) | _ => None end.
+
+(* two and three groups that use each other: only the use that closes the loop is dropped, the shape is kept *)
+Example C03_nv_use_loops_parse :
+  names (parse use2_doc) = Some [1; 2; 99] /\ names (parse use3_doc) = Some [1; 2; 3; 99] /\
+  b_count (fst (build use2_doc)) = 11%Z /\ b_count (fst (build use3_doc)) = 21%Z.
+Proof. vm_compute. repeat split; reflexivity. Qed.
 
 Example C03_nv_mask_3cycle :
   names (parse (svg [XN 1 TMask (Some 1) false [(AMask, Some 2)] [shape 2];
